@@ -68,6 +68,24 @@ pub static CYCLES_BEGUN: AtomicU64 = AtomicU64::new(0);
 pub static CYCLES_ENDED: AtomicU64 = AtomicU64::new(0);
 /// when false, hook events are counted but not logged (free-running modes)
 pub static LOG_HOOKS: AtomicBool = AtomicBool::new(true);
+/// bit set of the collector points a stepped cycle parks at (see `point_bit`)
+pub static CYIELD: AtomicU64 = AtomicU64::new(u64::MAX);
+/// workers also park before pushing a command replayed from the overflow list
+pub static PARK_REPLAY: AtomicBool = AtomicBool::new(false);
+
+pub fn point_bit(p: &Point) -> u64 {
+    match p {
+        Point::CycleBegin => 1,
+        Point::PassBegin { .. } => 2,
+        Point::DrainBegin { .. } => 4,
+        Point::RecvEmpty { .. } => 8,
+        Point::DrainEnd => 16,
+        Point::BeforeReport { .. } => 32,
+        Point::CycleEnd => 64,
+        _ => 0,
+    }
+}
+pub const YIELD_DRAIN: u64 = 4 | 8 | 32;
 
 #[derive(Clone, Debug)]
 pub struct ReportCall {
@@ -147,6 +165,7 @@ pub struct Ctl {
     /// park at the k-th Send of the running op if bit k is set
     pub park_mask: Vec<u64>,
     pub send_count: Vec<usize>,
+    pub yield_count: Vec<usize>,
     pub ccmd: Option<bool>,
     pub cstate: CState,
     pub cstepped: bool,
@@ -195,7 +214,7 @@ pub fn hook(p: &Point) {
     if me == LT_COLLECTOR {
         let mut g = lock(&CTL);
         let stepped = g.as_ref().map(|c| c.cstepped).unwrap_or(false);
-        if !stepped {
+        if !stepped || CYIELD.load(Ordering::Relaxed) & point_bit(p) == 0 {
             return;
         }
         {
@@ -210,7 +229,9 @@ pub fn hook(p: &Point) {
         return;
     }
     // worker
-    if let Point::Send { .. } = p {
+    let is_send = matches!(p, Point::Send { .. });
+    let is_replay = matches!(p, Point::Push { replay: true, .. }) && PARK_REPLAY.load(Ordering::Relaxed);
+    if is_send || is_replay {
         let mut g = lock(&CTL);
         if g.is_none() {
             return;
@@ -219,10 +240,15 @@ pub fn hook(p: &Point) {
         if me >= c.wstate.len() || c.wstate[me] != WState::Running {
             return;
         }
-        let k = c.send_count[me];
-        c.send_count[me] += 1;
-        if k < 64 && (c.park_mask[me] >> k) & 1 == 1 {
-            c.wstate[me] = WState::ParkedSend(k);
+        // number of Sends of this op already let through when we stop here
+        let sends_done = if is_send { c.send_count[me] } else { c.send_count[me].saturating_sub(1) };
+        if is_send {
+            c.send_count[me] += 1;
+        }
+        let y = c.yield_count[me];
+        c.yield_count[me] += 1;
+        if y < 64 && (c.park_mask[me] >> y) & 1 == 1 {
+            c.wstate[me] = WState::ParkedSend(sends_done);
             c.turn = Turn::Main;
             CV.notify_all();
             drop(g);
@@ -585,6 +611,11 @@ pub fn exec_op(ctx: &mut WorkerCtx, op: &Op) {
                 std::hint::spin_loop();
             }
         }
+        Op::Fill { span, n } => with_span(*span, |s| {
+            for _ in 0..*n {
+                s.add_event(Event::new("fill"));
+            }
+        }),
         Op::Exit => {}
         Op::ANew { a, kind: ak, span, poll_name } => {
             use fastrace::future::FutureExt;
@@ -726,6 +757,7 @@ fn worker_main(t: usize) {
                 Some(cmd) => {
                     c.wstate[t] = WState::Running;
                     c.send_count[t] = 0;
+                    c.yield_count[t] = 0;
                     cmd
                 }
                 None => {
@@ -838,6 +870,7 @@ impl Engine {
             wstate: vec![WState::Idle; nthreads],
             park_mask: vec![0; nthreads],
             send_count: vec![0; nthreads],
+            yield_count: vec![0; nthreads],
             ccmd: None,
             cstate: CState::Idle,
             cstepped: false,
@@ -910,6 +943,7 @@ impl Engine {
             c.wcmd[t] = None;
             c.park_mask[t] = 0;
             c.send_count[t] = 0;
+            c.yield_count[t] = 0;
         }
         let h = std::thread::Builder::new()
             .name(format!("hx-w{}", t))
@@ -1012,6 +1046,16 @@ impl Engine {
 
     pub fn flush_from_main(&mut self) {
         fastrace::flush();
+    }
+
+    /// Let every worker OS thread exit (frames must be empty); they are respawned on demand.
+    pub fn retire_workers(&mut self) -> Result<(), EngineError> {
+        for t in 0..self.nthreads {
+            if self.handles[t].is_some() {
+                self.run_op(t, Some(Arc::new(TopOp { op: Op::Exit, flat_base: 0 })), 0)?;
+            }
+        }
+        Ok(())
     }
 
     /// Stop all logical threads (frames must be empty).
